@@ -446,6 +446,7 @@ func (r *raftRun) runCluster(s RaftSeq, fresh bool) error {
 		cmd := UnhexCmd(op.Cmd)
 		if len(cmd) > 0 {
 			node := c.Nodes[op.Node]
+			before := c.Leader().Inner.LastIndex()
 			res, _ := node.Exec(op.Db, cmd)
 			if res.Kind == "hang" {
 				fmt.Fprintf(r.w, "H %s.%d\n", s.ID, i)
@@ -454,8 +455,9 @@ func (r *raftRun) runCluster(s RaftSeq, fresh bool) error {
 				r.recordSeq(s)
 				return nil
 			}
-			if op.Node == 0 && r.isSync(cmd[0]) {
-				viaRaft++
+			if op.Node == 0 {
+				// what the leader itself appended while serving the command (its reply comes after the apply)
+				viaRaft += int(c.Leader().Inner.LastIndex() - before)
 			}
 			batch = append(batch, op)
 			results = append(results, res)
@@ -465,9 +467,6 @@ func (r *raftRun) runCluster(s RaftSeq, fresh bool) error {
 			// one per distinct forwarded message (forwarded commands arrive by gossip: bounded wait)
 			target := l0 + uint64(viaRaft+distinctForwards(c, batch, results))
 			timedOut := !c.Quiesce(target, 25*time.Second)
-			if timedOut {
-				c.Quiesce(0, 5*time.Second)
-			}
 			if err := r.qLine(fmt.Sprintf("%s.%d", s.ID, i), c, batch, results, pres, timedOut); err != nil {
 				return err
 			}
@@ -698,9 +697,7 @@ func (r *raftRun) runDisp(role string, seqs []RaftSeq, fresh bool) error {
 		r.recordSeq(s)
 	}
 	// what was handed to raft or to the gossip layer is let through before the cluster is used again
-	if !c.Quiesce(l0+uint64(forwarded), 25*time.Second) {
-		c.Quiesce(0, 5*time.Second)
-	}
+	c.Quiesce(l0+uint64(forwarded), 25*time.Second)
 	return nil
 }
 
